@@ -8,104 +8,19 @@ mod engine;
 use std::cell::RefCell;
 use std::collections::{BTreeMap, BTreeSet};
 
-use trustfall_core::ir::FieldValue;
 
 use std::rc::Rc;
 
-use crate::engine::adapter::{CallKind, CallSig, Event, Hooks, Info, LoggingAdapter};
-use crate::engine::ir_sexp::{args_from_sexp, ir_to_sexp, outputs_to_sexp};
+use crate::engine::common::*;
+use crate::engine::adapter::{CallKind, CallSig, Hooks, Info, LoggingAdapter};
+use crate::engine::ir_sexp::{ir_to_sexp, outputs_to_sexp};
 use crate::engine::query_gen::QueryKnobs;
 use crate::engine::run::{Answer, compile, execute, load_schema, prepare};
 use crate::engine::schema_gen::{EdgeDef, GenSchema};
-use crate::engine::worlds::{GenStats, World, WorldKnobs, gen_worlds};
+use crate::engine::worlds::{GenStats, World, WorldKnobs};
 use tfharness::framework::*;
 use tfharness::rng::Rng;
 use tfharness::sexp::{Sexp, unhex};
-
-/// The pieces every `(cmd <schema> <data> <query text hex> <ir|tree> <args>)` request shares.
-struct EngineRequest<'a> {
-    schema: &'a Sexp,
-    data: &'a Sexp,
-    text: String,
-    fourth: &'a Sexp,
-    args: BTreeMap<String, FieldValue>,
-}
-
-fn parse_request<'a>(args: &'a [Sexp]) -> Option<EngineRequest<'a>> {
-    let [schema, data, text, fourth, a] = args else { return None };
-    let text = String::from_utf8(unhex(text.as_atom()?)?).ok()?;
-    Some(EngineRequest { schema, data, text, fourth, args: args_from_sexp(a)? })
-}
-
-/// Implementation side of `exec` / `spec-exec`.
-fn eval_exec(cmd: &str, args: &[Sexp]) -> Option<String> {
-    let r = parse_request(args)?;
-    let p = prepare(r.schema, r.data, &r.text)?;
-    let q = match &p.query {
-        Err(names) => return Some(Answer::FrontendErr(names.clone()).render()),
-        Ok(q) => q.clone(),
-    };
-    if cmd == "exec" && ir_to_sexp(&q.ir_query) != *r.fourth {
-        return Some("(ir-mismatch)".to_string());
-    }
-    Some(execute(std::sync::Arc::new(p.adapter()), q, &r.args).render())
-}
-
-/// Tags of one generated case: the query's feature labels.
-fn feature_tags(features: &BTreeSet<String>) -> Vec<String> {
-    features.iter().cloned().collect()
-}
-
-const NT_FEATURES: [&str; 9] =
-    ["fold", "opt", "recurse", "coerce", "tag-local", "tag-earlier", "tag-import", "count-tag", "count-tag-import"];
-
-/// `nt:<reason>` tags: the query has at least one of {fold, optional, recurse, tag, coercion} and
-/// returned at least one row on this dataset.
-fn nontrivial_tags(e: &Evaluated) -> Vec<String> {
-    if !e.answer.starts_with("(rows (row") {
-        return vec![];
-    }
-    let mut out = vec![];
-    for f in NT_FEATURES {
-        if e.tags.iter().any(|t| t == f) {
-            out.push(format!("nt:{f}+rows"));
-        }
-    }
-    out
-}
-
-/// Every implementation panic, one failure per distinct (panic class, world+query).
-fn panic_failures(evaluated: &[Evaluated]) -> Vec<OracleFailure> {
-    let mut seen = BTreeSet::new();
-    let mut out = vec![];
-    for e in evaluated {
-        let Some(info) = &e.panic_info else { continue };
-        let Some((_, args)) = e.request.as_call() else { continue };
-        let key = panic_key(info);
-        let world: Vec<String> =
-            [0usize, 1, 2, 4].iter().filter_map(|i| args.get(*i)).map(|s| s.to_string()).collect();
-        if !seen.insert((key.clone(), world)) {
-            continue;
-        }
-        let (text, qargs) = match parse_request(args) {
-            Some(r) => (r.text, crate::engine::ir_sexp::args_to_sexp(&r.args).to_string()),
-            None => (String::new(), String::new()),
-        };
-        out.push(OracleFailure { key, detail: format!("{info} | query: {text} | args: {qargs}"), requests: vec![e.line.clone()] });
-    }
-    out
-}
-
-/// A panic inside the generator is an infrastructure error: say where, then stop.
-fn generate_worlds(rng: &mut Rng, knobs: &WorldKnobs) -> (Vec<World>, GenStats) {
-    match guarded(|| gen_worlds(rng, knobs)) {
-        Ok(x) => x,
-        Err(info) => {
-            eprintln!("engine generator panicked: {info}");
-            std::process::exit(3);
-        }
-    }
-}
 
 /// Worlds of one run + the requests of C01 over them.
 fn c01_cases(worlds: &[World]) -> Vec<Case> {
@@ -338,46 +253,46 @@ fn check_call(schema: &GenSchema, c: &CallSig, bad: &mut Vec<(String, String)>) 
         let declared: BTreeSet<&str> = edge.params.iter().map(|p| p.name.as_str()).collect();
         let given: BTreeSet<&str> = c.params.keys().map(|k| k.as_str()).collect();
         if declared != given {
-            fail("parameter-names-differ-from-declared", format!("declared {declared:?}, given {given:?}"));
+            fail("contract:params-mismatch", format!("declared {declared:?}, given {given:?}"));
         }
         for p in &edge.params {
             if let Some(v) = c.params.get(&p.name) {
                 if !p.ty.to_real().is_valid_value(v) {
-                    fail("parameter-value-not-of-declared-type", format!("{} = {v:?} for type {}", p.name, p.ty));
+                    fail("contract:param-value-not-of-declared-type", format!("{} = {v:?} for type {}", p.name, p.ty));
                 }
             }
         }
     };
     match c.kind {
         CallKind::Start => match schema.root(&c.name) {
-            None => fail("starting-edge-not-on-root-type", c.name.clone()),
+            None => fail("contract:starting-edge-not-on-root-type", c.name.clone()),
             Some(e) => check_params(e, &mut fail),
         },
         _ => {
             let tname = c.type_name.as_deref().unwrap_or("");
             let Some(tdef) = schema.ty(tname) else {
-                fail("type-not-defined", tname.to_string());
+                fail("contract:type-not-defined", tname.to_string());
                 return;
             };
             match c.kind {
                 CallKind::Property => {
                     if c.name != "__typename" && !tdef.props.iter().any(|(p, _)| *p == c.name) {
-                        fail("property-not-defined-on-type", format!("{tname}.{}", c.name));
+                        fail("contract:property-not-on-type", format!("{tname}.{}", c.name));
                     }
                 }
                 CallKind::Neighbors => match schema.edge(tname, &c.name) {
-                    None => fail("edge-not-defined-on-type", format!("{tname}.{}", c.name)),
+                    None => fail("contract:edge-not-on-type", format!("{tname}.{}", c.name)),
                     Some(e) => check_params(e, &mut fail),
                 },
                 CallKind::Coercion => {
                     let to = c.coerce_to.as_deref().unwrap_or("");
                     if !tdef.is_iface {
-                        fail("coercion-from-non-interface", tname.to_string());
+                        fail("contract:coercion-from-non-interface", tname.to_string());
                     }
                     if schema.ty(to).is_none() {
-                        fail("coercion-target-not-defined", to.to_string());
+                        fail("contract:coercion-target-not-defined", to.to_string());
                     } else if to == tname || !schema.is_subtype(to, tname) {
-                        fail("coercion-target-not-a-strict-subtype", format!("{tname} -> {to}"));
+                        fail("contract:coercion-target-not-subtype", format!("{tname} -> {to}"));
                     }
                 }
                 CallKind::Start => unreachable!(),
@@ -386,9 +301,9 @@ fn check_call(schema: &GenSchema, c: &CallSig, bad: &mut Vec<(String, String)>) 
     }
 }
 
-/// Run one `(calls …)` request under the contract-checking adapter.
-/// Returns (sorted distinct call signatures, violations) or the error answer.
-fn run_calls(args: &[Sexp]) -> Option<Result<(Vec<String>, Vec<(String, String)>), String>> {
+/// Run one `(contract-exec …)` request under the contract-checking adapter.
+/// Returns (rendered rows answer, violations) or the error answer.
+fn run_contract(args: &[Sexp]) -> Option<Result<(String, Vec<(String, String)>), String>> {
     let r = parse_request(args)?;
     let p = prepare(r.schema, r.data, &r.text)?;
     let q = match &p.query {
@@ -408,11 +323,11 @@ fn run_calls(args: &[Sexp]) -> Option<Result<(Vec<String>, Vec<(String, String)>
         on_context: Some(Box::new(move |c: &CallSig, active: Option<u32>| {
             let (Some(v), Some(tname)) = (active, c.type_name.as_deref()) else { return };
             match types.concrete_type(v) {
-                None => v2.borrow_mut().push(("active-vertex-unknown".into(), format!("vertex {v} in {}", sig_sexp(c)))),
+                None => v2.borrow_mut().push(("contract:vertex-unknown".into(), format!("vertex {v} in {}", sig_sexp(c)))),
                 Some(conc) => {
                     if !s2.is_subtype(conc, tname) {
                         v2.borrow_mut().push((
-                            "active-vertex-not-an-instance-of-named-type".into(),
+                            "contract:vertex-not-instance-of-type".into(),
                             format!("vertex {v} of type {conc} in {}", sig_sexp(c)),
                         ));
                     }
@@ -421,18 +336,12 @@ fn run_calls(args: &[Sexp]) -> Option<Result<(Vec<String>, Vec<(String, String)>
         })),
     };
     let adapter = LoggingAdapter::with_hooks(inner, hooks);
-    let log = adapter.log.clone();
     let answer = execute(std::sync::Arc::new(adapter), q, &r.args);
     if let Answer::ArgsErr(_) = answer {
         return Some(Err(answer.render()));
     }
-    let sigs: BTreeSet<String> = log
-        .borrow()
-        .iter()
-        .filter_map(|e| if let Event::Call(c) = e { Some(sig_sexp(c).to_string()) } else { None })
-        .collect();
     let v = violations.borrow().clone();
-    Some(Ok((sigs.into_iter().collect(), v)))
+    Some(Ok((answer.render(), v)))
 }
 
 #[derive(Default)]
@@ -446,7 +355,7 @@ impl Prop for C21 {
         "C21"
     }
     fn rule(&self) -> &'static str {
-        "the worlds of C01; per accepted (query, dataset) one (calls <schema> <data> <query> <ir> <args>) request answered with the sorted set of adapter call signatures (sig <kind> <type> <name> (params ...) <coerce_to|->) observed while all rows are pulled (model = calls of the Lean Interp). Oracle on the implementation: a contract-checking wrapper adapter validates every real call against the generated schema and the dataset's typing: type defined; property defined on it or __typename; edge defined on it; coercion only from an interface to a strict subtype; parameters = exactly the declared names with values valid for the declared types (explicit / default / null); every non-None active vertex pulled through a call is an instance of the named type. Non-trivial (nt:<feature>): the query has a recursion with implicit coercion or from a subtype, a coercion, a fold inside an optional scope, an imported tag, or an edge parameter."
+        "the worlds of C01; per accepted (query, dataset) one (contract-exec <schema> <data> <query> <ir> <args>) request: the implementation runs the query under the contract-checking adapter and answers the rows exactly like exec (model = rows of the Lean Interp). Oracle on the implementation: the contract-checking wrapper adapter validates every real call against the generated schema and the dataset's typing: type defined; property defined on it or __typename; edge defined on it; coercion only from an interface to a strict subtype; parameters = exactly the declared names with values valid for the declared types (explicit / default / null); every non-None active vertex pulled through a call is an instance of the named type. Non-trivial (nt:<feature>): the query has a recursion with implicit coercion or from a subtype, a coercion, a fold inside an optional scope, an imported tag, or an edge parameter."
     }
     fn generate(&self, tier: Tier, rng: &mut Rng) -> Vec<Case> {
         let (worlds, stats) = generate_worlds(rng, &WorldKnobs::for_tier(tier));
@@ -456,7 +365,7 @@ impl Prop for C21 {
             for q in w.accepted() {
                 let tags = feature_tags(&q.gq.features);
                 for d in 0..w.datasets.len() {
-                    if let Some(r) = w.request("calls", d, q) {
+                    if let Some(r) = w.request("contract-exec", d, q) {
                         out.push(Case { request: r, tags: tags.clone() });
                     }
                 }
@@ -467,8 +376,8 @@ impl Prop for C21 {
     fn eval(&self, request: &Sexp) -> Option<String> {
         let (h, args) = request.as_call()?;
         match h {
-            "calls" => Some(match run_calls(args)? {
-                Ok((sigs, _)) => format!("(calls{})", sigs.iter().map(|s| format!(" {s}")).collect::<String>()),
+            "contract-exec" => Some(match run_contract(args)? {
+                Ok((rows, _)) => rows,
                 Err(answer) => answer,
             }),
             _ => None,
@@ -478,11 +387,11 @@ impl Prop for C21 {
         let mut fails = panic_failures(evaluated);
         let mut checked = 0usize;
         for e in evaluated {
-            let Some(("calls", args)) = e.request.as_call() else { continue };
+            let Some(("contract-exec", args)) = e.request.as_call() else { continue };
             if e.panic_info.is_some() {
                 continue;
             }
-            if let Ok(Some(Ok((_, violations)))) = guarded(|| run_calls(args)) {
+            if let Ok(Some(Ok((_, violations)))) = guarded(|| run_contract(args)) {
                 checked += 1;
                 let mut seen = BTreeSet::new();
                 for (key, detail) in violations {
@@ -501,6 +410,7 @@ impl Prop for C21 {
             .iter()
             .filter(|f| e.tags.iter().any(|t| t == *f))
             .map(|f| format!("nt:{f}"))
+            .chain(std::iter::once(if e.answer.starts_with("(rows (row") { "rows:>0".to_string() } else { format!("answer:{}", e.answer.chars().take(12).collect::<String>()) }))
             .collect()
     }
     fn extra_stats(&self, _evaluated: &[Evaluated]) -> serde_json::Value {
